@@ -75,8 +75,21 @@ Exp(m, i) == IF ~Observable(m, i) THEN "none"
 
 ExpSeq(m) == [i \in 1..Len(m) |-> Exp(m, i)]
 
-\* everything up to the last documented member must be executed (its value is shown); what follows may be dropped
 MaxOf(S) == IF S = {} THEN 0 ELSE CHOOSE x \in S : \A y \in S : y <= x
+
+\* Whose docstring is a string literal?  A string literal documents the assignment statement it follows:
+\* the nearest preceding assignment, if nothing but non-assignment statements lie between.  If that
+\* assignment binds a plain name (public or private) the name MAY be reported with this text (it MUST
+\* when the literal follows directly: DocumentedMember); if it binds no plain name (tuple unpacking,
+\* attribute or subscript target) the text belongs to nobody - in particular not to an earlier member.
+AssignKinds == {"pubassign", "privassign", "tupassign"}
+NearestAssign(m, j) == MaxOf({i \in 1..(j - 1) : m[i] \in AssignKinds})
+Owner(m, j) == IF m[j] \notin DocKinds THEN 0
+               ELSE LET a == NearestAssign(m, j) IN
+                    IF a > 0 /\ m[a] \in {"pubassign", "privassign"} THEN a ELSE 0
+OwnerSeq(m) == [j \in 1..Len(m) |-> Owner(m, j)]
+
+\* everything up to the last documented member must be executed (its value is shown); what follows may be dropped
 LastRequired(m) == MaxOf({i \in 1..Len(m) : DocumentedMember(m, i)})
 
 -----------------------------------------------------------------------------
@@ -150,10 +163,17 @@ EvalMembersOn == \A i \in 1..Len(mod) :
    (mod[i] \in {"privassign", "tupassign", "import", "other", "def_nodoc"}
      \/ (mod[i] = "pubassign" /\ KindAt(mod, i + 1) \in {"doc_eval"} /\ ~Free(mod, i))) => Exp(mod, i) = "on"
 
+\* the docstring directly after a named assignment is that name's own; nothing after a nameless assignment is anybody's
+OwnDocstring == \A i \in 1..Len(mod) :
+   /\ (mod[i] \in {"pubassign", "privassign"} /\ KindAt(mod, i + 1) \in DocKinds => Owner(mod, i + 1) = i)
+   /\ (mod[i] = "tupassign" /\ KindAt(mod, i + 1) \in DocKinds => Owner(mod, i + 1) = 0)
+   /\ (Owner(mod, i) # 0 => \A k \in (Owner(mod, i) + 1)..(i - 1) : mod[k] \notin AssignKinds)
+
 \* emission (spec -> code): one line per module shape
 PEmit == (phase = "build" /\ Len(mod) >= 1) =>
             PrintT(ToJson([m |-> mod, x |-> ExpSeq(mod), r |-> LastRequired(mod),
-                           dm |-> [i \in 1..Len(mod) |-> DocumentedMember(mod, i)]]))
+                           dm |-> [i \in 1..Len(mod) |-> DocumentedMember(mod, i)],
+                           ow |-> OwnerSeq(mod)]))
 
 -----------------------------------------------------------------------------
 (* (b) Source trees.  Node 0 is the root package (always a normal directory). *)
